@@ -283,11 +283,13 @@ impl Machine {
                             if c == 0 {
                                 break;
                             }
-                            if c & 0xFF == 0 {
-                                io.out_unjudged = true;
-                                break;
+                            // Both bytes of every word before the x0000 terminator are written,
+                            // low byte first. Whether a x00 byte (the padding of an odd-length
+                            // string) reaches the console is invisible: NULs are dropped here and
+                            // from the observed output alike.
+                            if c & 0xFF != 0 {
+                                io.out.push((c & 0xFF) as u8 as char);
                             }
-                            io.out.push((c & 0xFF) as u8 as char);
                             if c >> 8 != 0 {
                                 io.out.push((c >> 8) as u8 as char);
                             }
